@@ -101,7 +101,24 @@ pub open spec fn all_numeric(rows: Seq<Row>, c: usize, bm: Option<&[bool]>, n: i
 pub open spec fn bm_ok(rows: Seq<Row>, bm: Option<&[bool]>) -> bool {
     bm is Some ==> bm.unwrap()@.len() == rows.len()
 }
-pub uninterp spec fn lt_spec(a: SqlValue, b: SqlValue) -> bool;     // compare_for_min_max(a, b): "a < b" (its own contract below)
+pub uninterp spec fn f32_lt(a: f32, b: f32) -> bool;     // a.partial_cmp(b) == Some(Less) (machine float comparison, uninterpreted)
+pub uninterp spec fn f64_lt(a: f64, b: f64) -> bool;
+/// compare_for_min_max(a, b), "a < b": same-variant numeric comparison; every other pair compares as not-less (see TRUSTED)
+pub open spec fn lt_spec(a: SqlValue, b: SqlValue) -> bool {
+    match (a, b) {
+        (SqlValue::Integer(x), SqlValue::Integer(y)) => x < y,
+        (SqlValue::Bigint(x), SqlValue::Bigint(y)) => x < y,
+        (SqlValue::Smallint(x), SqlValue::Smallint(y)) => x < y,
+        (SqlValue::Float(x), SqlValue::Float(y)) => f32_lt(x, y),
+        (SqlValue::Double(x), SqlValue::Double(y)) => f64_lt(x, y),
+        (SqlValue::Numeric(x), SqlValue::Numeric(y)) => f64_lt(x, y),
+        _ => false,
+    }
+}
+#[verifier::external_body] fn i64_cmp(a: i64, b: i64) -> (r: Ordering) ensures r == (if a < b { Ordering::Less } else if a == b { Ordering::Equal } else { Ordering::Greater }) { unimplemented!() }
+#[verifier::external_body] fn i16_cmp(a: i16, b: i16) -> (r: Ordering) ensures r == (if a < b { Ordering::Less } else if a == b { Ordering::Equal } else { Ordering::Greater }) { unimplemented!() }
+#[verifier::external_body] fn f32_cmp(a: f32, b: f32) -> (r: Ordering) ensures (r == Ordering::Less) == f32_lt(a, b) { unimplemented!() }
+#[verifier::external_body] fn f64_cmp(a: f64, b: f64) -> (r: Ordering) ensures (r == Ordering::Less) == f64_lt(a, b) { unimplemented!() }
 /// running MIN / MAX over the live cells of the first n rows: the fold of "replace when strictly smaller / larger"
 pub open spec fn fold_min(rows: Seq<Row>, c: usize, bm: Option<&[bool]>, n: int) -> Option<SqlValue> decreases n {
     if n <= 0 { None } else if live(rows, c, bm, n - 1) {
@@ -117,7 +134,8 @@ pub open spec fn fold_max(rows: Seq<Row>, c: usize, bm: Option<&[bool]>, n: int)
 }
 proof fn lemma_fold_none_iff_no_live(rows: Seq<Row>, c: usize, bm: Option<&[bool]>, n: int)
     ensures (fold_min(rows, c, bm, n) is None) == (n_live(rows, c, bm, n) == 0), (fold_max(rows, c, bm, n) is None) == (n_live(rows, c, bm, n) == 0),
-            n_live(rows, c, bm, n) >= 0
+            n_live(rows, c, bm, n) >= 0,
+            fold_min(rows, c, bm, n) matches Some(v) ==> !(v is Null), fold_max(rows, c, bm, n) matches Some(v) ==> !(v is Null)
     decreases n
 {
     if n > 0 { lemma_fold_none_iff_no_live(rows, c, bm, n - 1); }
@@ -206,6 +224,35 @@ proof fn ssum_append(a: Seq<i64>, b: Seq<i64>)
         ssum_append(a, b.drop_last());
     }
 }
+
+proof fn lemma_min_flush(l: Seq<i64>, k: int, b: Seq<i64>, m: i64)
+    requires 0 <= k, k + b.len() <= l.len(), b =~= l.subrange(k, k + b.len()), b.len() > 0, min_so_far(l, k, m)
+    ensures forall|x: i64| #[trigger] is_min(b, x) ==> min_so_far(l, k + b.len(), if m <= x { m } else { x })
+{
+    assert forall|x: i64| #[trigger] is_min(b, x) implies min_so_far(l, k + b.len(), if m <= x { m } else { x }) by {
+        let r = if m <= x { m } else { x };
+        assert forall|j: int| 0 <= j < k + b.len() implies r <= l[j] by {
+            if j >= k { assert(l[j] == b[j - k]); }
+        }
+        let w = choose|w: int| 0 <= w < b.len() && b[w] == x;
+        assert(l[k + w] == x);
+        if k > 0 && m <= x { let w2 = choose|w2: int| 0 <= w2 < k && l[w2] == m; assert(l[w2] == r); } else { assert(l[k + w] == r); }
+    }
+}
+proof fn lemma_max_flush(l: Seq<i64>, k: int, b: Seq<i64>, m: i64)
+    requires 0 <= k, k + b.len() <= l.len(), b =~= l.subrange(k, k + b.len()), b.len() > 0, max_so_far(l, k, m)
+    ensures forall|x: i64| #[trigger] is_max(b, x) ==> max_so_far(l, k + b.len(), if m >= x { m } else { x })
+{
+    assert forall|x: i64| #[trigger] is_max(b, x) implies max_so_far(l, k + b.len(), if m >= x { m } else { x }) by {
+        let r = if m >= x { m } else { x };
+        assert forall|j: int| 0 <= j < k + b.len() implies r >= l[j] by {
+            if j >= k { assert(l[j] == b[j - k]); }
+        }
+        let w = choose|w: int| 0 <= w < b.len() && b[w] == x;
+        assert(l[k + w] == x);
+        if k > 0 && m >= x { let w2 = choose|w2: int| 0 <= w2 < k && l[w2] == m; assert(l[w2] == r); } else { assert(l[k + w] == r); }
+    }
+}
 proof fn ssum_bound(s: Seq<i64>)
     ensures -0x8000_0000_0000_0000 * s.len() <= ssum(s) <= 0x7fff_ffff_ffff_ffff * s.len()
     decreases s.len()
@@ -238,9 +285,48 @@ impl<'a> ColumnIterator<'a> {
 
 //@@ compute_avg
 
+//@@ compare_for_min_max
+
+//@@ compute_min
+
+//@@ compute_max
+
 //@@ AggregateOp
 
 //@@ simd_aggregate_i64
+
+/// what every columnar aggregate of one column must satisfy, whichever kernel computed it (C03 / C07 on NULLs and emptiness)
+pub open spec fn agg_ok(rows: Seq<Row>, c: usize, bm: Option<&[bool]>, op: AggregateOp, v: SqlValue) -> bool {
+    let n = rows.len() as int;
+    match op {
+        AggregateOp::Count => v == SqlValue::Integer(n_live(rows, c, bm, n) as i64),
+        _ => (v is Null) == (n_live(rows, c, bm, n) == 0),
+    }
+}
+pub open spec fn is_f64val(v: SqlValue) -> bool { numeric(v) }
+// simd_aggregate_f64: NOT under contract (floating-point kernels); assumed to satisfy the structural contract only
+#[verifier::external_body]
+fn simd_aggregate_f64(scan: &ColumnarScan, column_idx: usize, op: AggregateOp, filter_bitmap: Option<&[bool]>) -> (r: Result<SqlValue, ExecutorError>)
+    requires bm_ok(scan.rows@, filter_bitmap)
+    ensures r matches Ok(v) ==> agg_ok(scan.rows@, column_idx, filter_bitmap, op, v)
+{ unimplemented!() }
+
+//@@ can_use_simd_for_column
+
+//@@ compute_columnar_aggregate
+
+fn canary_dispatch(scan: &ColumnarScan, c: usize, op: AggregateOp, bm: Option<&[bool]>)
+    requires bm_ok(scan.rows@, bm), scan.rows@.len() < i64::MAX
+{
+    let r = compute_columnar_aggregate(scan, c, op, bm);
+    assert(false); // CANARY
+}
+fn canary_i64(scan: &ColumnarScan, c: usize, op: AggregateOp, bm: Option<&[bool]>)
+    requires bm_ok(scan.rows@, bm), scan.rows@.len() < i64::MAX
+{
+    let r = simd_aggregate_i64(scan, c, op, bm);
+    assert(false); // CANARY
+}
 
 
 fn canary_sum(scan: &ColumnarScan, c: usize, bm: Option<&[bool]>)
@@ -268,6 +354,7 @@ fn main() {}
 
 _A = 'crates/vibesql-executor/src/select/columnar/aggregate.rs'
 _S = 'crates/vibesql-executor/src/select/columnar/scan.rs'
+_SA = 'crates/vibesql-executor/src/select/columnar/simd_aggregate.rs'
 
 # R10: `for (i, x) in <iter>.enumerate() { BODY }` is desugared exactly as the language defines it:
 #      let mut it = <iter>; let mut n = 0; loop { match it.next() { None => break, Some(x) => { let i = n; n += 1; BODY } } }
@@ -288,6 +375,92 @@ _IT_END = '''
         ensures en__ == scan.rows@.len(),
         decreases scan.rows@.len() - en__,
 '''
+
+_I64_INV = """
+            rows == scan.rows@, c == column_idx, bm == filter_bitmap,
+            0 <= count == ivals(rows, c, bm, en__ as int).len(), count <= en__,
+            batch@.len() < 1024, batch@.len() <= count,
+            batch@ =~= ivals(rows, c, bm, en__ as int).subrange(count - batch@.len(), count as int),
+            all_int(rows, c, bm, en__ as int),
+            original_type == type_tag(first_live(rows, c, bm, en__ as int)),
+            (op == AggregateOp::Sum || op == AggregateOp::Avg) ==> sum as int == ssum(ivals(rows, c, bm, en__ as int).subrange(0, count - batch@.len())),
+            -0x8000_0000_0000_0000 * (count - batch@.len()) <= sum as int <= 0x7fff_ffff_ffff_ffff * (count - batch@.len()),
+            op == AggregateOp::Min ==> min_so_far(ivals(rows, c, bm, en__ as int), count - batch@.len(), min),
+            op == AggregateOp::Max ==> max_so_far(ivals(rows, c, bm, en__ as int), count - batch@.len(), max),
+"""
+_I64_AFTER_PUSH = """
+            proof {
+                let l0 = ivals(rows, c, bm, en__ as int - 1);
+                let l1 = ivals(rows, c, bm, en__ as int);
+                assert(l1 =~= l0.push(i64_value));
+                assert(batch@ =~= l1.subrange(count + 1 - batch@.len(), count as int + 1));
+                assert(l1.subrange(0, count + 1 - batch@.len()) =~= l0.subrange(0, count - (batch@.len() - 1)));
+                let k = count + 1 - batch@.len();
+                assert(forall|j: int| 0 <= j < k ==> l1[j] == l0[j]);
+                if op == AggregateOp::Min {
+                    assert(min_so_far(l0, k, min));
+                    if k > 0 { let w = choose|w: int| 0 <= w < k && l0[w] == min; assert(l1[w] == min); }
+                    assert(min_so_far(l1, k, min));
+                }
+                if op == AggregateOp::Max {
+                    assert(max_so_far(l0, k, max));
+                    if k > 0 { let w = choose|w: int| 0 <= w < k && l0[w] == max; assert(l1[w] == max); }
+                    assert(max_so_far(l1, k, max));
+                }
+            }
+"""
+_I64_FLUSH_HEAD = """
+                let ghost min0 = min; let ghost max0 = max;
+                proof {
+                    let l1 = ivals(rows, c, bm, en__ as int);
+                    let k = count - batch@.len();
+                    ssum_bound(batch@);
+                    if op == AggregateOp::Min { lemma_min_flush(l1, k, batch@, min0); }
+                    if op == AggregateOp::Max { lemma_max_flush(l1, k, batch@, max0); }
+                }
+"""
+_I64_BEFORE_CLEAR = """
+                proof {
+                    let l1 = ivals(rows, c, bm, en__ as int);
+                    let k = count - batch@.len();
+                    assert(l1.subrange(0, k) + batch@ =~= l1.subrange(0, count as int));
+                    ssum_append(l1.subrange(0, k), batch@);
+                    ssum_bound(l1.subrange(0, count as int));
+                }
+"""
+_I64_AFTER_LOOP = """
+    proof { lemma_ivals_len(rows, c, bm, en__ as int); }
+    let ghost vals = ivals(rows, c, bm, en__ as int);
+    let ghost k0 = count - batch@.len();
+    proof {
+        assert(vals.subrange(0, k0) + batch@ =~= vals);
+        ssum_append(vals.subrange(0, k0), batch@);
+        ssum_bound(vals);
+        ssum_bound(batch@);
+        assert(vals.subrange(0, vals.len() as int) =~= vals);
+        assert(count == vals.len());
+        assert(vals.len() == n_live(rows, c, bm, en__ as int));
+        if batch@.len() > 0 {
+            if op == AggregateOp::Min { lemma_min_flush(vals, k0, batch@, min); }
+            if op == AggregateOp::Max { lemma_max_flush(vals, k0, batch@, max); }
+        }
+    }
+"""
+_I64_AFTER_FINAL = """
+    proof {
+        assert((op == AggregateOp::Sum || op == AggregateOp::Avg) ==> sum as int == ssum(vals));
+        assert(op == AggregateOp::Min ==> min_so_far(vals, vals.len() as int, min));
+        assert(op == AggregateOp::Max ==> max_so_far(vals, vals.len() as int, max));
+        assert(count == vals.len());
+        assert(vals.len() == n_live(rows, c, bm, en__ as int));
+        assert(en__ == scan.rows@.len());
+        if count > 0 {
+            assert(op == AggregateOp::Min ==> is_min(vals, min));
+            assert(op == AggregateOp::Max ==> is_max(vals, max));
+            assert(first_live(rows, c, bm, en__ as int) is Some);
+        }
+    }
+"""
 
 
 def _sum_arm(m):
@@ -374,6 +547,105 @@ ITEMS = {
                                           f_of_i64(n_live(scan.rows@, column_idx, filter_bitmap, scan.rows@.len() as int) as i64))) }),
         r is Err ==> !all_numeric(scan.rows@, column_idx, filter_bitmap, scan.rows@.len() as int),
 '''),
+    'compare_for_min_max': dict(
+        file=_A, path='fn compare_for_min_max', ret='r',
+        rewrites=[('re', r'use std::cmp::Ordering;', '', 1),
+                  ('re', r'\(SqlValue::(Integer|Bigint)\(a\), SqlValue::\1\(b\)\) => a\.cmp\(b\)', r'(SqlValue::\1(a), SqlValue::\1(b)) => i64_cmp(*a, *b)', 2),
+                  ('re', r'\(SqlValue::Smallint\(a\), SqlValue::Smallint\(b\)\) => a\.cmp\(b\)', r'(SqlValue::Smallint(a), SqlValue::Smallint(b)) => i16_cmp(*a, *b)', 1),
+                  ('re', r'\(SqlValue::Float\(a\), SqlValue::Float\(b\)\) => \{\s*a\.partial_cmp\(b\)\.unwrap_or\(Ordering::Equal\)\s*\}', r'(SqlValue::Float(a), SqlValue::Float(b)) => { f32_cmp(*a, *b) }', 1),
+                  ('re', r'\(SqlValue::(Double|Numeric)\(a\), SqlValue::\1\(b\)\) => \{\s*a\.partial_cmp\(b\)\.unwrap_or\(Ordering::Equal\)\s*\}', r'(SqlValue::\1(a), SqlValue::\1(b)) => { f64_cmp(*a, *b) }', 2)],
+        contract="""
+    ensures r == lt_spec(*a, *b),
+"""),
+    'compute_min': dict(
+        file=_A, path='fn compute_min', ret='r', rewrites=[_FOR_ENUM, _BM],
+        loops={0: _IT_INV + """
+            min_value == fold_min(scan.rows@, column_idx, filter_bitmap, en__ as int),
+""" + _IT_END},
+        proofs=[('@tail', 'proof { lemma_fold_none_iff_no_live(scan.rows@, column_idx, filter_bitmap, scan.rows@.len() as int); }')],
+        contract="""
+    requires bm_ok(scan.rows@, filter_bitmap), scan.rows@.len() < i64::MAX
+    ensures
+        // MIN: the running "replace when strictly smaller" fold over the selected non-NULL values; NULL iff there is none
+        r == Ok::<SqlValue, ExecutorError>(match fold_min(scan.rows@, column_idx, filter_bitmap, scan.rows@.len() as int) { None => SqlValue::Null, Some(v) => v }),
+        (fold_min(scan.rows@, column_idx, filter_bitmap, scan.rows@.len() as int) is None) == (n_live(scan.rows@, column_idx, filter_bitmap, scan.rows@.len() as int) == 0),
+        fold_min(scan.rows@, column_idx, filter_bitmap, scan.rows@.len() as int) matches Some(v) ==> !(v is Null),
+"""),
+    'compute_max': dict(
+        file=_A, path='fn compute_max', ret='r', rewrites=[_FOR_ENUM, _BM],
+        loops={0: _IT_INV + """
+            max_value == fold_max(scan.rows@, column_idx, filter_bitmap, en__ as int),
+""" + _IT_END},
+        proofs=[('@tail', 'proof { lemma_fold_none_iff_no_live(scan.rows@, column_idx, filter_bitmap, scan.rows@.len() as int); }')],
+        contract="""
+    requires bm_ok(scan.rows@, filter_bitmap), scan.rows@.len() < i64::MAX
+    ensures
+        r == Ok::<SqlValue, ExecutorError>(match fold_max(scan.rows@, column_idx, filter_bitmap, scan.rows@.len() as int) { None => SqlValue::Null, Some(v) => v }),
+        (fold_max(scan.rows@, column_idx, filter_bitmap, scan.rows@.len() as int) is None) == (n_live(scan.rows@, column_idx, filter_bitmap, scan.rows@.len() as int) == 0),
+        fold_max(scan.rows@, column_idx, filter_bitmap, scan.rows@.len() as int) matches Some(v) ==> !(v is Null),
+"""),
+    'can_use_simd_for_column': dict(
+        file=_SA, path='fn can_use_simd_for_column', ret='r',
+        rewrites=[('re', r'for \((\w+), (\w+)\) in (scan\.column\(column_idx\))\.enumerate\(\) \{',
+                   r'let mut it__ = \3; let mut en__: usize = 0; loop { let nx__ = it__.next(); if nx__.is_none() { break; } let \2 = nx__.unwrap(); let \1 = en__; en__ = en__ + 1;', 1)],
+        loops={0: """
+        invariant it__.rows@ == scan.rows@, it__.column_index == column_idx, it__.row_index == en__, en__ <= scan.rows@.len(),
+        decreases scan.rows@.len() - en__,
+"""},
+        contract="""
+    ensures true,      // a pure heuristic: every answer must lead to a correct aggregate (see compute_columnar_aggregate)
+"""),
+    'compute_columnar_aggregate': dict(
+        file=_A, path='fn compute_columnar_aggregate', ret='r',
+        rewrites=[('re', r'use super::simd_aggregate::\{[^}]*\};', '', 1)],
+        proofs=[('@entry', 'proof { lemma_counts(scan.rows@, column_idx, filter_bitmap, scan.rows@.len() as int); lemma_fold_none_iff_no_live(scan.rows@, column_idx, filter_bitmap, scan.rows@.len() as int); }')],
+        contract="""
+    requires bm_ok(scan.rows@, filter_bitmap), scan.rows@.len() < i64::MAX
+    ensures
+        // COUNT over a column source is COUNT(*): the number of selected rows, never NULL, whatever the column holds
+        op == AggregateOp::Count ==> r == Ok::<SqlValue, ExecutorError>(SqlValue::Integer(n_sel(filter_bitmap, scan.rows@.len() as int) as i64)),
+        // SUM / AVG / MIN / MAX: NULL iff the column has no selected non-NULL value - on the SIMD integer, SIMD float and scalar paths alike
+        op != AggregateOp::Count ==> (r matches Ok(v) ==> ((v is Null) == (n_live(scan.rows@, column_idx, filter_bitmap, scan.rows@.len() as int) == 0))),
+"""),
+    'AggregateOp': dict(file=_A, path='enum AggregateOp', rewrites=[('re', r'^enum AggregateOp', '#[derive(PartialEq, Eq, Structural, Clone, Copy)]\npub enum AggregateOp', 1)]),
+    'simd_aggregate_i64': dict(
+        file=_SA, path='fn simd_aggregate_i64', ret='r',
+        rewrites=[_FOR_ENUM, _BM, _FMT,
+                  ('re', r'const BATCH_SIZE: usize = 1024;[^\n]*\n', '', 1), ('re', r'\bBATCH_SIZE\b', '1024', 2),
+                  ('re', r'let mut batch = Vec::with_capacity\(1024\);', 'let mut batch: Vec<i64> = Vec::with_capacity(1024);', 1),
+                  ('re', r'&batch\b', 'batch.as_slice()', 6),
+                  ('re', r'\b(min|max)\.(min|max)\(', r'i64_\2(\1, ', 4),
+                  ('re', r'sum as f64 / count as f64', 'fdiv(f64_of_i128(sum), f64_of_i64(count))', 1),
+                  ('re', r'SqlValue::Double\(sum as f64\)', 'SqlValue::Double(f64_of_i128(sum))', 1)],
+        loops={0: _IT_INV + _I64_INV + _IT_END},
+        proofs=[('@entry', 'let ghost rows = scan.rows@; let ghost c = column_idx; let ghost bm = filter_bitmap;'),
+                ('@loop0', 'proof { lemma_ivals_len(rows, c, bm, en__ as int); lemma_ivals_len(rows, c, bm, en__ as int + 1); }'),
+                ('after:batch.push(i64_value);', _I64_AFTER_PUSH),
+                ('after:if batch.len() >= 1024 {', _I64_FLUSH_HEAD),
+                ('batch.clear();', _I64_BEFORE_CLEAR),
+                ('@afterloop0', _I64_AFTER_LOOP),
+                ('@tail', _I64_AFTER_FINAL)],
+        contract="""
+    requires bm_ok(scan.rows@, filter_bitmap), scan.rows@.len() < i64::MAX
+    ensures
+        // an error iff some selected non-NULL value is not an integer
+        r is Ok <==> all_int(scan.rows@, column_idx, filter_bitmap, scan.rows@.len() as int),
+        r matches Ok(v) ==> ({
+            let n = scan.rows@.len() as int;
+            let vals = ivals(scan.rows@, column_idx, filter_bitmap, n);
+            &&& vals.len() == n_live(scan.rows@, column_idx, filter_bitmap, n)
+            &&& match op {
+                AggregateOp::Count => v == SqlValue::Integer(vals.len() as i64),                  // COUNT(column): never NULL
+                _ => if vals.len() == 0 { v == SqlValue::Null } else { match op {                  // NULL iff no non-NULL value
+                    AggregateOp::Sum => v == SqlValue::Double(f_of_i128(ssum(vals) as i128)),        // the exact integer sum, converted once
+                    AggregateOp::Avg => v == SqlValue::Double(f_div(f_of_i128(ssum(vals) as i128), f_of_i64(vals.len() as i64))),
+                    AggregateOp::Min => exists|m: i64| is_min(vals, m) && v == typed(first_live(scan.rows@, column_idx, filter_bitmap, n), m),
+                    AggregateOp::Max => exists|m: i64| is_max(vals, m) && v == typed(first_live(scan.rows@, column_idx, filter_bitmap, n), m),
+                    AggregateOp::Count => true,
+                } },
+            }
+        }),
+"""),
 }
 
 OBLIGATIONS = {
@@ -384,8 +656,16 @@ OBLIGATIONS = {
     'compute_count': ['post:count_star_is_number_of_selected_rows_never_null'],
     'count_non_null': ['post:number_of_selected_non_null_values', 'safety:no_overflow'],
     'compute_avg': ['post:sum_divided_by_number_of_non_null_values__null_iff_none'],
+    'compare_for_min_max': ['post:strictly_less_on_same_variant_numerics_else_false'],
+    'compute_min': ['post:fold_of_strictly_smaller_over_selected_non_null_values__null_iff_none', 'proof:loop_invariant'],
+    'compute_max': ['post:fold_of_strictly_larger_over_selected_non_null_values__null_iff_none', 'proof:loop_invariant'],
+    'lemma_fold_none_iff_no_live': ['post:fold_is_none_iff_no_live_value'],
+    'can_use_simd_for_column': ['safety:no_panic_terminates'],
+    'compute_columnar_aggregate': ['post:count_is_count_star__others_null_iff_no_non_null_value_on_every_path'],
+    'simd_aggregate_i64': ['post:count_sum_avg_min_max_over_selected_non_null_integers__null_iff_none__error_iff_non_integer', 'safety:no_overflow_of_i128_sum_and_i64_count', 'proof:loop_invariant_over_batches'],
+    'lemma_ivals_len': ['post:ivals_length_is_live_count'], 'ssum_append': ['post:sum_of_concatenation'], 'ssum_bound': ['post:sum_bounded_by_length'], 'lemma_min_flush': ['post:running_min_extends_over_a_batch'], 'lemma_max_flush': ['post:running_max_extends_over_a_batch'],
 }
-CANARIES = ['canary_sum', 'canary_avg', 'canary_count']
+CANARIES = ['canary_sum', 'canary_avg', 'canary_count', 'canary_dispatch', 'canary_i64']
 TRUSTED = [
     'external_body Opq: String / Date / Time / Timestamp / Interval payloads of SqlValue and error messages (never inspected by these functions)',
     'external_body SqlValue::clone: Clone is a copy',
@@ -394,6 +674,10 @@ TRUSTED = [
     'external_body fzero / fadd / fdiv / f64_of_i64 / f64_of_i16 / f64_of_f32 / f64_of_i128: machine floating point is UNINTERPRETED (f_add, f_div, f_of_*): sums and averages are stated as the fold of the machine operations in row order, not as real-number arithmetic',
     'external_body bm_get: bitmap.get(i).copied().unwrap_or(false); count_true: bitmap.iter().filter(|&&p| p).count() (iterator adapters are outside the Verus subset)',
     'precondition bm_ok: a filter bitmap has one entry per row (create_filter_bitmap(rows.len(), ..), not under contract); precondition rows.len() < i64::MAX (a Vec<Row> cannot be longer)',
+    'external_body simd_sum_i64 / simd_min_i64 / simd_max_i64: the integer kernels BY THEIR CONTRACTS (exact sum; None iff empty else minimum / maximum), which unit A-simd proves on the real kernels',
+    'external_body simd_aggregate_f64: the floating-point batching driver is NOT under contract; ASSUMED: COUNT = number of selected non-NULL values, other aggregates NULL iff there is none (read off its code: same skeleton as simd_aggregate_i64). Its float kernels (simd_sum_f64 ..) are not under contract either',
+    'external_body i64_min / i64_max: std i64::min / i64::max; i64_cmp / i16_cmp: Ord::cmp on integers; f32_cmp / f64_cmp: partial_cmp(..).unwrap_or(Equal) on floats, only "is Less" is used (uninterpreted f32_lt / f64_lt)',
+    'compare_for_min_max answers "not less" for every pair that is not two numerics of the same variant (strings, dates, mixed variants): MIN / MAX over such columns keep the FIRST value - stated as is (lt_spec), not judged',
     'R10 rewrite: for (i, x) in it.enumerate() desugared to its definition (loop / next / break with a usize counter)',
     'f64 `+=` / `as f64` / `/` rewritten to the fadd / f64_of_* / fdiv stubs (Verus does not interpret float arithmetic)',
 ]
